@@ -10,7 +10,7 @@ CONSTANTS MaxSteps, MaxRace
 VARIABLES hist, fin
 gvars == <<vars, hist, fin>>
 
-BadKinds == {"budget", "threads0", "toobig"}
+BadKinds == {"budget", "threads0", "threads0n", "toobig"}
 H(rec) == hist' = Append(hist, rec) /\ UNCHANGED fin
 Go == ~fin /\ steps < MaxSteps /\ Quiet
 
